@@ -465,6 +465,12 @@ class PSBaseParser:
             self._parse1 = self._parse_string_2
             return i + 1
 
+        elif c != b"\n":
+            # Not an escape sequence: only the backslash itself is ignored,
+            # the character after it is kept (PDF 32000-1:2008, 7.3.4.2).
+            self._parse1 = self._parse_string
+            return i
+
         # default action
         self._parse1 = self._parse_string
         return i + 1
